@@ -1,6 +1,6 @@
 //! C02 scenario: the loader is total. Arbitrary bytes through `load_buffer` (strict and lenient) and `check_buffer`.
-//! Request `load <strict> <hex>`: the harness answers `ok`, `lexerr <Kind>@<line>` or `*` (a parser error: the lexer-only
-//! model has no opinion; `*` matches any model answer).  Oracles: no panic, no hang (watchdog), error lines within
+//! Request `load <strict> <hex>`: the harness answers `ok w<n> <kind@line,…|->` (the warnings), `err L<kind>@<line>` (tokenizer
+//! error) or `err P<kind>@<line>` (parser error); the Lean model of the tokenizer and the parser answers the same request.  Oracles: no panic, no hang (watchdog), error lines within
 //! [1, 1 + number of newlines], `check_buffer` accepts whatever `load_buffer` accepts.
 use crate::util::*;
 use autosar_data::*;
@@ -39,17 +39,17 @@ fn one(k: &mut Sink, input: &[u8]) {
     for strict in [true, false] {
         let r = std::panic::catch_unwind(|| {
             let model = AutosarModel::new();
-            model.load_buffer(input, "f.arxml", strict).map(|(_, w)| w.len())
+            model.load_buffer(input, "f.arxml", strict).map(|(_, w)| w.iter().map(|x| crate::world::load_err(x).trim_start_matches('P').to_string()).collect::<Vec<_>>())
         });
         let ans = match &r {
             Err(_) => {
                 k.fail(format!("load_buffer(strict={strict}) panics on input hex {}", hex(input)));
                 "panic".to_string()
             }
-            Ok(Ok(_)) => {
+            Ok(Ok(w)) => {
                 accepted = true;
                 k.stat("load_ok");
-                "ok".to_string()
+                format!("ok w{} {}", w.len(), if w.is_empty() { "-".to_string() } else { w.join(",") })
             }
             Ok(Err(e)) => {
                 let line = match e {
@@ -63,15 +63,13 @@ fn one(k: &mut Sink, input: &[u8]) {
                     }
                 }
                 match e {
-                    AutosarDataError::LexerError { line, source, .. } => {
+                    AutosarDataError::LexerError { source, .. } => {
                         k.stat("lexer_error");
-                        format!("lexerr {}@{}", lex_kind(source), line)
+                        k.stat(&format!("lexer_error:{}", lex_kind(source)));
                     }
-                    _ => {
-                        k.stat("parser_error");
-                        "*".to_string()
-                    }
+                    _ => k.stat("parser_error"),
                 }
+                format!("err {}", crate::world::load_err(e))
             }
         };
         k.put(&format!("load {} {}", strict as u8, hex(input)), &ans, !input.is_empty());
